@@ -327,7 +327,7 @@ def run(chk):
     # ---- shared ------------------------------------------------------------------------------------------------------------------------
     from rules import C02, C19
 
-    chk.include(C02.run, ("C02.chunkpair", "C02.flushonce"), ("C02.", "C04."))
+    chk.include(C02.run, ("C02.chunkpair", "C02.flushonce", "C02.file.chunked"), ("C02.", "C04."))
     chk.include(C19.run, ("C19.size",), ("C19.", "C04.multipart."))
 
 
@@ -456,8 +456,8 @@ def hunt3_rules(chk, repo):
         try:
             for chunked, length, comp in ((True, None, None), (False, 5, None), (False, 0, None), (False, None, "zlibobj")):
                 env = {f"isinstance({w}, StreamWriter)": True, f"{w}.output_size": 0, f"{w}.chunked": chunked, f"{w}.length": length, f"{w}._compress": comp}
-                rows.append(bool(Evaluator(env).ev(par.test)))
-            sent = bool(Evaluator({f"isinstance({w}, StreamWriter)": True, f"{w}.output_size": 17, f"{w}.chunked": True, f"{w}.length": None, f"{w}._compress": None}).ev(par.test))
+                rows.append(bool(Evaluator(env).ev(norm.subst(par.test, par))))
+            sent = bool(Evaluator({f"isinstance({w}, StreamWriter)": True, f"{w}.output_size": 17, f"{w}.chunked": True, f"{w}.length": None, f"{w}._compress": None}).ev(norm.subst(par.test, par)))
         except AnalysisError:
             continue
         if all(rows) and not sent:
